@@ -19,6 +19,7 @@ class Receive:
 
     def __attrs_post_init__(self):
         self._key = None
+        self._early_messages = []
 
     def wire(self, boss, send):
         self._B = _interfaces.IBoss(boss)
@@ -45,7 +46,13 @@ class Receive:
         assert isinstance(side, str), type(phase)
         assert isinstance(phase, str), type(phase)
         assert isinstance(body, bytes), type(body)
-        assert self._key
+        if self._key is None:
+            # Order delivers as soon as it has seen the peer's PAKE message,
+            # but the key only exists once our own code is known too (and
+            # never, if that PAKE message was unusable): hold the message
+            # until got_key()
+            self._early_messages.append((side, phase, body))
+            return
         data_key = derive_phase_key(self._key, side, phase)
         try:
             plaintext = decrypt_data(data_key, body)
@@ -72,6 +79,13 @@ class Receive:
         self._key = key
 
     @m.output()
+    def deliver_early_messages(self, key):
+        early = self._early_messages
+        self._early_messages = []
+        for (side, phase, body) in early:
+            self.got_message(side, phase, body)
+
+    @m.output()
     def S_got_verified_key(self, phase, plaintext):
         assert self._key
         self._S.got_verified_key(self._key)
@@ -94,7 +108,8 @@ class Receive:
     def W_scared(self):
         self._B.scared()
 
-    S0_unknown_key.upon(got_key, enter=S1_unverified_key, outputs=[record_key])
+    S0_unknown_key.upon(got_key, enter=S1_unverified_key,
+                        outputs=[record_key, deliver_early_messages])
     S1_unverified_key.upon(
         got_message_good,
         enter=S2_verified_key,
